@@ -87,7 +87,7 @@ TEXTS = {
  "C13": dict(
   level_text=("rapid state machines over a real session pair / a real listener in virtual time. Rules: start Read/Write/Accept (<=3 blocked each), peer writes (several messages per datagram), peer reads (window opens), Set{,Read,Write}Deadline with zero/past/now/future, advance time, Close (twice), socket read/write error, new peers. "
               "After every rule and every event: a call still blocked => none of its reasons to return holds (data readable, window open for longer than one flush interval without any writer being served, deadline in force reached, closed, socket error); a timeout fires never early and exactly at the deadline in force; error kinds; after Close Write fails, Read drains then fails, second Close errors."),
-  level_note=E2 + ". Two listed findings are excluded by construction and reproduced separately: a deadline change reaches only one of several blocked callers; Accept ignores a deadline set while it is blocked.",
+  level_note=E2 + ". The two defects these machines found in deadline handling (a deadline change reached only one of several blocked callers; Accept ignored a deadline set while it was blocked) were first listed as findings and later repaired by fix: commits; their reproducers now run as ordinary regression tests and the classes are generated again.",
   rule="Non-trivial = a deadline / Close / socket-error rule fired while >=1 call was blocked, or >=2 callers were blocked on the same side."),
  "C14": dict(
   level_text=("Seeded generated concurrent programs: 4-24 goroutines x 20-200 calls over the 27 supported UDPSession methods, 5 listener methods and DefaultSnmp, 2-6 sessions on one listener sharing pool/entropy/counters, all 14 cipher kinds x FEC on/off, traffic flowing, concurrent double Close at the end; real time, the genuine TimedSched, built with -race. "
